@@ -927,3 +927,11 @@ mod tests {
         assert_eq!(b"111111", rb.as_slices().1);
     }
 }
+
+#[cfg(feature = "verif_hooks")]
+impl RingBuffer {
+    /// Read-only view of (cap, head, tail) for the verification harness.
+    pub fn verif_state(&self) -> (usize, usize, usize) {
+        (self.cap, self.head, self.tail)
+    }
+}
